@@ -2379,7 +2379,7 @@ func (resp *Response) writeBodyStream(w *bufio.Writer, sendBody bool) (err error
 			if err == nil && sendBody {
 				err = writeBodyChunked(w, resp.bodyStream)
 			}
-			if err == nil {
+			if err == nil && sendBody {
 				err = resp.Header.writeTrailer(w)
 			}
 		}
